@@ -18,13 +18,21 @@ MAX_DIMS = 4
 MAX_SIZE = 2000  # larger arrays (only the piggy-backed examples reach them) are not replayed
 
 
+REBUILD_COUNT = [0]
+
+
 def rebuild(fd, snap: Snap, order=None, cls=None):
     letters = list(snap.letters)
     order = list(order) if order is not None else letters
     axes = [letters.index(l) for l in order]
     dl = [fd.Dimension(letter=snap.letters[a], name=snap.names[a], items=list(snap.items[a]), **({"dtype": snap.dtypes[a]} if snap.dtypes[a] is not None else {})) for a in axes]
-    vals = np.ascontiguousarray(np.transpose(snap.values, axes)) if axes else np.array(snap.values, copy=True)
-    return fd.FlodymArray(dims=fd.DimensionSet(dim_list=dl), values=vals.copy(), name=snap.name or "unnamed")
+    base = np.array(snap.values, copy=True)
+    REBUILD_COUNT[0] += 1
+    if axes and REBUILD_COUNT[0] % 2:
+        vals = np.transpose(base, axes)  # a transposed VIEW: same labels and values, not C-contiguous
+    else:
+        vals = np.ascontiguousarray(np.transpose(base, axes)) if axes else base
+    return fd.FlodymArray(dims=fd.DimensionSet(dim_list=dl), values=vals, name=snap.name or "unnamed")
 
 
 def rebuild_dimset(fd, ds: DSnap, order=None):
